@@ -3,8 +3,19 @@ from pyvc.api import *
 from contracts.graph import G, M, N, SHAPES, install_graph_models
 
 
+def sim_asarray(shape_of):
+    """jnp.asarray(x): an array object with a shape, a dtype and x's value; jnp.asarray(x, dtype) is the generic cast model (identity only when x already has that dtype)"""
+    from pyvc.models_jax import DTYPE_OF, MODELS as _JM
+
+    def m(ip_, x, *a, **k):
+        if a or k.get("dtype") is not None:
+            return _JM["jax.numpy.asarray"](ip_, x.attrs["value"] if isinstance(x, PyObj) and "value" in x.attrs else x, *a, **k)
+        return PyObj("arr", shape=shape_of(ip_, x), value=x, dtype=DTYPE_OF(ip_.to_U(x)) if not isinstance(x, (int, float)) else ip_.uf("dtype_of_python_scalar"))
+    return m
+
+
 def install_sim_models(ip):
-    ip.models["jax.numpy.asarray"] = lambda ip_, x, *a, **k: PyObj("arr", shape=(ip_.uf("len0", ip_.to_U(x), sort=Int),), value=x)
+    ip.models["jax.numpy.asarray"] = sim_asarray(lambda ip_, x: (ip_.uf("len0", ip_.to_U(x), sort=Int),))
     ip.models["jax.random.split"] = lambda ip_, key, num=2: [ip_.uf("split", ip_.to_U(key), z3.IntVal(i)) for i in range(ip_.conc_int(num))]
 
 
@@ -108,7 +119,7 @@ def u_sample_shape(ip):
     c = ip.ctx
     install_graph_models(ip)
     dims = tuple(c.fresh(f"n{i}", Int) for i in range(3))
-    ip.models["jax.numpy.asarray"] = lambda ip_, x, *a, **k: PyObj("arr", shape=dims, value=x)
+    ip.models["jax.numpy.asarray"] = sim_asarray(lambda ip_, x: dims)
     ip.models["jax.random.split"] = lambda ip_, key, num=2: [ip_.uf("split", ip_.to_U(key), z3.IntVal(i)) for i in range(ip_.conc_int(num))]
     for ev, ba, per_obs in [(e_, b_, True) for e_, b_ in (((), ()), ((dims[2],), ()), ((), (dims[2],)), ((dims[2],), (dims[1],)))] + [((), (), False), ((), (dims[2],), False)]:
         g = G(ip)
